@@ -263,7 +263,7 @@ def suites(tier, seed):
     for mlen in ([0, 5, 111, 112] if tier == "quick" else [0, 1, 5, 111, 112, 127, 128, 129]):
         n = "c07_hmac_m%d" % mlen
         src += h_hmac(n, mlen)
-        hs.append(Harness(n, unwind=max(132, mlen + 10), timeout=3000, mem_gb=28, site="crypto_auth", desc="HMAC-SHA-512-256 structure for a %d-byte symbolic message at the compress512 transcript level" % mlen, bounds={"mlen": mlen}))
+        hs.append(Harness(n, unwind=max(132, mlen + 10), timeout=3000, mem_gb=(28 if mlen >= 112 else 12), site="crypto_auth", desc="HMAC-SHA-512-256 structure for a %d-byte symbolic message at the compress512 transcript level" % mlen, bounds={"mlen": mlen}))
     src += rs.hdr(("barrier", "fmt") + rs.MAC) + H_VERIFY
     hs.append(Harness("c07_verify_onetimeauth", unwind=40, timeout=900, site="crypto_onetimeauth_verify", desc="Ok <=> all 16 bytes equal (ideal MAC output symbolic)", bounds={}))
     src += rs.hdr(("barrier", "fmt"), extra=SC_STUB) + H_VERIFY_AUTH
